@@ -29,7 +29,18 @@ AtomOfNot(g) == CHOOSE a \in Atoms : NotOf[a] = g
 
 BlankStrand(lits) ==
   [lits |-> lits, flo |-> <<>>, del |-> <<>>, sel |-> 0, selT |-> 0, selA |-> 0, last |-> 0,
-   amb |-> FALSE, atime |-> 0, sub |-> "", ncon |-> 0]
+   amb |-> FALSE, atime |-> 0, sub |-> "", ncon |-> 0, ref |-> FALSE]
+
+(* create_refinement_strand on a ground answer *)
+RefinementStrand(a) ==
+  [BlankStrand([i \in 1..Len(a.del) |-> [pos |-> TRUE, g |-> a.del[i]]])
+     EXCEPT !.amb = a.amb, !.del = a.del, !.ref = TRUE]
+SeqHas(seq, x) == \E i \in 1..Len(seq) : seq[i] = x
+\* the elements of `new` that are not in `old`, in order (each once)
+RECURSIVE Fresh(_, _)
+Fresh(old, new) == IF new = <<>> THEN <<>>
+                   ELSE IF SeqHas(old, Head(new)) THEN Fresh(old, Tail(new))
+                   ELSE <<Head(new)>> \o Fresh(Append(old, Head(new)), Tail(new))
 
 (* The where-clause `S: T` of an impl is lowered to the condition `ForAll<> { Implemented(S: T) }`
    (chalk-ir/src/cast.rs, Binders<T> -> Goal), a non-domain goal with its own table ("q<i>");
@@ -118,7 +129,8 @@ Candidates(cur) ==       \* cur: the public call in progress [kind, goal, stopAt
              IN
              {[ev |-> "Push", table |-> s.selT, clock |-> clock + 1],
               [ev |-> "CycleCo", strand |-> [Deselect(s) EXCEPT !.lits = RemoveAt(s.lits, s.sel),
-                                                               !.del = Append(s.del, lit.g)]]}
+                                                               !.del = IF SeqHas(s.del, lit.g) THEN s.del
+                                                                       ELSE Append(s.del, lit.g)]]}
              \cup (IF ActiveDepth(t) # 0
                    THEN LET d == ActiveDepth(t) IN
                         {[ev |-> "CyclePos",
@@ -128,33 +140,34 @@ Candidates(cur) ==       \* cur: the public call in progress [kind, goal, stopAt
              \cup (IF s.selA < Len(tables[t].answers)
                    THEN LET ans == tables[t].answers[s.selA + 1] IN
                         IF lit.pos
-                        THEN {[ev |-> "Merge", outcome |-> "ok", next |-> <<>>,
-                               strand |-> <<[Deselect(s) EXCEPT !.lits = RemoveAt(s.lits, s.sel),
-                                                                 !.amb = s.amb \/ ans.amb,
-                                                                 !.atime = s.atime + 1,
-                                                                 !.del = s.del \o ans.del]>>]}
+                        THEN LET new == Fresh(s.del, ans.del) IN
+                             {[ev |-> "Merge", outcome |-> "ok", next |-> <<>>,
+                               strand |-> <<[Deselect(s) EXCEPT
+                                   !.lits = RemoveAt(s.lits, s.sel)
+                                            \o (IF s.ref THEN [i \in 1..Len(new) |-> [pos |-> TRUE, g |-> new[i]]] ELSE <<>>),
+                                   !.amb = s.amb \/ ans.amb,
+                                   !.atime = s.atime + 1,
+                                   !.del = s.del \o new]>>]}
                         ELSE IF ans.del # <<>>
-                             \* named deviation SLG_NegativeOnDelayedAnswer: logic.rs merge_answer_into_strand
-                             \* panics ("Negative subgoal had delayed_subgoals"); the panic unwinds like any other
-                             THEN {[ev |-> "Panic"]}
+                             THEN {[ev |-> "NegSkip",
+                                    refine |-> IF s.selA \in tables[t].refined THEN <<>> ELSE <<RefinementStrand(ans)>>]}
                              ELSE {[ev |-> "Merge", outcome |-> "negfail", next |-> <<>>, strand |-> <<>>]}
                    ELSE {})
         ELSE {})
   \cup (IF pc = "answer"
         THEN LET s   == held[1]
-                 del == SelectSeq(s.del, LAMBDA d : d # tables[TopT].key)   \* self-cycle filter
+                 del == IF s.ref THEN <<>>
+                        ELSE SelectSeq(s.del, LAMBDA d : d # tables[TopT].key)   \* self-cycle filter
              IN {Ev("Requeue"),
                  [ev |-> "AnswerNew", idx |-> Len(tables[TopT].answers), amb |-> s.amb,
-                  trivial |-> TRUE, trivsub |-> TRUE, key |-> del, del |-> del],
+                  trivial |-> (del = <<>>), trivsub |-> TRUE, key |-> del, del |-> del],
                  [ev |-> "AnswerDup", key |-> del]}
         ELSE {})
   \cup (IF pc = "answered"
         THEN {Ev("PopToCaller"), Ev("RootAnswer")}
              \cup (IF Len(stack) = 1
                    THEN LET a == LastAnswer(TopT) IN
-                        {[ev |-> "Refine",
-                          strand |-> [BlankStrand([i \in 1..Len(a.del) |-> [pos |-> TRUE, g |-> a.del[i]]])
-                                        EXCEPT !.amb = a.amb]]}
+                        {[ev |-> "Refine", strand |-> RefinementStrand(a)]}
                    ELSE {})
         ELSE {})
   \cup (IF pc = "refined" THEN {Ev("RootAnswer")} ELSE {})
@@ -177,6 +190,9 @@ Candidates(cur) ==       \* cur: the public call in progress [kind, goal, stopAt
   \cup (IF pc = "exit"
         THEN (IF stack # <<>> THEN {[ev |-> "DropState", active |-> (Top.active # <<>>)]}
               ELSE LET a == tables[stT].answers IN
+                   (IF exitRes = "Answer" /\ a[stA + 1].del # <<>> /\ stA \notin tables[stT].refined
+                    THEN {[ev |-> "RefineLate", strand |-> RefinementStrand(a[stA + 1])]} ELSE {})
+                   \cup
                    {[ev |-> "RootEnd",
                      res |-> IF exitRes = "Answer"
                              THEN (IF a[stA + 1].del # <<>> THEN "InvalidAnswer" ELSE "Answer")
